@@ -18,6 +18,12 @@ Two modes:
                            are evaluated; a real solve is not aborted);
   mode="raise"             the contract raises `C06ContractViolation` at the first failing clause (classic icontract).
 
+`treigen.solve` is additionally guarded by a loop observer on the module global `treigen.pnorm_squared` (evaluated once
+per secular iteration): a repeated iteration state or more than SECULAR_ITERATION_CAP iterations raises
+`ExactSolverNoReturn` instead of letting the un-capped `while` loop spin (open finding D18); `classify_no_return` is the
+structural classifier of that finding.  Mechanism keys assigned here: KEY_NEAR_POLE (D18), KEY_ZERO_MATRIX (D19),
+KEY_NORM_DRIFT (D20).
+
 Everything observed is counted in LOG.counters (contract evaluations per function, exits, branches, skipped calls);
 `transfer(res)` moves the log into a vlib.common.Res.  Zero evaluations of a contract must be treated as inconclusive
 by the caller.
@@ -37,14 +43,20 @@ MAX_N = 40
 TOL = {
     "in_ball": 1e-6,           # ||z||_cfg <= Delta (1 + 1e-6)
     "boundary": 1e-6,          # | ||z||_cfg / Delta - 1 | <= 1e-6 for 'boundary' / 'neg curve'
-    "cauchy_rel": 1e-9,        # model(z) <= model(cauchy) + 1e-9 |model(cauchy)| (+ rounding floor)
+    "cauchy_rel": 1e-9,        # model(z) <= model(cauchy) + 1e-9 |model(cauchy)| + 4 (n+2) eps sum|terms| (dot-product rounding bound)
     "interior_factor": 1.05,   # ||H z + g|| <= 1.05 max(cg_tol, ratio ||g||) (+ rounding floor of the recurrence residual)
-    "path_rel": 1e-9,          # distance of the dogleg point from the path <= 1e-9 ||d|| + 64 eps (||cp|| + ||newton||)
+    "path_rel": 1e-6,          # distance of the dogleg point from the path <= 1e-6 ||d|| + 64 eps (||cp|| + ||newton||)
     "exact_ball": 1e-8,        # ||s|| <= Delta (1 + 1e-8)
     "exact_rel": 1e-7,         # model(s) <= m* + 1e-7 |m*| + 64 eps (||A|| Delta^2 + ||b|| Delta)
 }
 
 IN_ORACLE = False
+KEY_ZERO_MATRIX = "C06/exact-nan/zero-matrix"
+KEY_NEAR_POLE = "C06/exact-no-return/near-pole"
+KEY_NORM_DRIFT = "C06/cg-preconditioned-norm-recurrence-drift"
+DRIFT_CAP = 0.9
+DRIFT_MIN_ITERS = 5
+SECULAR_ITERATION_CAP = 400
 
 
 class C06ContractViolation(AssertionError):
@@ -152,7 +164,9 @@ def model_value(H, g, z):
     zl = onp.asarray(z, dtype=LD)
     lin = gl @ zl
     quad = LD(0.5) * (zl @ (Hl @ zl))
-    return lin + quad, abs(lin) + abs(quad)
+    # magnitude that bounds the float64 rounding error of evaluating the model at z: sum of absolute values of all terms
+    mag = abs(gl) @ abs(zl) + LD(0.5) * (abs(zl) @ (abs(Hl) @ abs(zl)))
+    return lin + quad, mag
 
 
 def metric_norm(M, z):
@@ -175,22 +189,28 @@ def spd_report(P):
     return bool(ok), asym, float(w[0]), float(w[-1])
 
 
-def cauchy_model_value(H, g, P, Minv, Delta):
+def cauchy_model_value(H, g, P, Minv, Delta, direction=None):
     """Model value at the Cauchy point: argmin of the model along -P g inside {||.||_cfg <= Delta}.
 
-    Minv is the metric of the configured norm (None = Euclidean)."""
-    d = -(onp.asarray(P, dtype=LD) @ onp.asarray(g, dtype=LD))
+    Minv is the metric of the configured norm (None = Euclidean).  `direction` = the routine's own float64 -P g (its
+    consistency with P and g is judged by a separate clause); the Cauchy value is ill-conditioned with respect to the
+    rounding of P g when P is ill-conditioned, so the line search is done along the direction the routine really had.
+    Returns (model value, step length, magnitude of the terms)."""
+    if direction is None:
+        d = -(onp.asarray(P, dtype=LD) @ onp.asarray(g, dtype=LD))
+    else:
+        d = onp.asarray(direction, dtype=LD)
     dn = metric_norm(Minv, d)
     if not (dn > 0):
-        return LD(0.0), LD(0.0)
+        return LD(0.0), LD(0.0), LD(0.0)
     gd = onp.asarray(g, dtype=LD) @ d           # = -g.P.g < 0
     curv = d @ (onp.asarray(H, dtype=LD) @ d)
     tmax = LD(Delta) / dn
     t = tmax
     if curv > 0:
         t = min(tmax, -gd / curv)
-    m, _ = model_value(H, g, t * d)
-    return m, t
+    m, mag = model_value(H, g, t * d)
+    return m, t, mag
 
 
 def path_distance(cp, newton, d):
@@ -293,7 +313,7 @@ def _vec(a):
     return onp.asarray(a, dtype=float).reshape(-1)
 
 
-def _cg_analysis(r, hess_vec_func, precond, trSize, settings, result, two_norm_only=False):
+def _cg_analysis(r, hess_vec_func, precond, trSize, settings, result, two_norm_only=False, direction=None):
     def build():
         out = {"skip": None}
         try:
@@ -333,10 +353,36 @@ def _cg_analysis(r, hess_vec_func, precond, trSize, settings, result, two_norm_o
         out["finite"] = bool(onp.all(onp.isfinite(zz)))
         if out["finite"]:
             out["norm"] = float(metric_norm(Minv, zz))
+            out["norm_rounding"] = _quadform_rounding(Minv, zz)
             m, mabs = model_value(H, g, zz)
             out["m"], out["mabs"] = m, mabs
-            mc, tc = cauchy_model_value(H, g, P, Minv, Delta)
-            out["mc"] = mc
+            dirn = direction if direction is not None else result[1]
+            dirn = _vec(dirn) if dirn is not None else None
+            if dirn is not None and (dirn.size != n or not onp.all(onp.isfinite(dirn))):
+                dirn = None
+            try:
+                if direction is None and int(iters) == 0:
+                    dirn = None          # early return before the direction was formed: (z, z, 'interior', 0)
+            except Exception:
+                dirn = None
+            if dirn is not None:
+                # the routine's steepest-descent direction must be -P g up to the rounding of one matrix-vector product
+                # (a preconditioner applied as a matrix: |err| <= c eps |P||g|; applied as a backward-stable solve with
+                # M = P^-1: |err| <= c eps |P||M||P g|)
+                Pg = P @ g
+                err = onp.abs(dirn + Pg)
+                aP = onp.abs(P)
+                try:
+                    aM = onp.abs(onp.linalg.inv(0.5 * (P + P.T)))
+                    solve_term = aP @ (aM @ onp.abs(Pg))
+                except Exception:
+                    solve_term = 0.0
+                bnd = 8 * EPS * (n + 2) * (aP @ onp.abs(g) + solve_term) + onp.finfo(float).tiny
+                out["dir_err"] = float((err / bnd).max())
+            else:
+                out["dir_err"] = None
+            mc, tc, mcmag = cauchy_model_value(H, g, P, Minv, Delta, dirn)
+            out["mc"], out["mcmag"] = mc, mcmag
             res = onp.asarray(H, dtype=LD) @ onp.asarray(zz, dtype=LD) + onp.asarray(g, dtype=LD)
             out["resnorm"] = float(onp.sqrt(res @ res))
             out["Hnorm"] = float(onp.linalg.norm(H, 2))
@@ -374,11 +420,49 @@ def cg_result_is_wellformed(r, hess_vec_func, precond, trSize, settings, result)
     return _expect("cg.wellformed", ok, _detail_cg(a))
 
 
+def _drift_mechanism(a, excess):
+    """Structural classifier of the open finding D20: in preconditioned-inner-product mode the step norm is tracked by
+    the Gould-Lucidi-Roma-Toint recurrences (no product with P^-1 is available), which drift once CG loses
+    orthogonality.  Keyed on: configured norm = preconditioned AND iters >= DRIFT_MIN_ITERS (calibration on the unchanged
+    tree, 38400 preconditioned calls: deviation <= 1.4e-9 up to 4 iterations, 7e-8 at 5, up to 1.4e-2 from 6 on) AND a
+    deviation that is not gross (<= DRIFT_CAP).  Euclidean mode and exits within the first 4 iterations -- where a wrong
+    recurrence shows just as well -- are not covered and stay violations."""
+    if a["pre"] and int(a["iters"]) >= DRIFT_MIN_ITERS and abs(excess) <= DRIFT_CAP:
+        LOG.count("cg.norm_recurrence_drift")
+        return KEY_NORM_DRIFT
+    return None
+
+
+def _quadform_rounding(M, z):
+    """Relative float64 rounding bound of evaluating z.M.z (and hence of any norm the routine itself can form):
+    2 (n+2) eps |z|.|M|.|z| / z.M.z  (halved for the square root); 0 for the Euclidean norm."""
+    if M is None:
+        return 0.0
+    z = onp.asarray(z, dtype=float)
+    q = float(z @ (M @ z))
+    if not (q > 0):
+        return 0.0
+    return float(2 * (z.size + 2) * EPS * (onp.abs(z) @ (onp.abs(M) @ onp.abs(z))) / q)
+
+
+def _bound_norm(clause, a, excess):
+    in_class = a["pre"] and int(a["iters"]) >= DRIFT_MIN_ITERS
+    if in_class:
+        LOG.count("cg.norm_checks_in_D20_class")
+    # closest calls of the input class of the open finding D20 are reported separately from the must-hold class
+    tol = (TOL["in_ball"] if clause.endswith("in_ball") else TOL["boundary"]) + a.get("norm_rounding", 0.0)
+    ok = LOG.ratio(clause + ("[D20 class: preconditioned, >=%d iters]" % DRIFT_MIN_ITERS if in_class else ""), excess, tol)
+    if ok:
+        return True
+    d = _detail_cg(a, {"observed": _f(excess), "allowed": tol, "norm": a["norm"]})
+    return _fail(clause, d, _drift_mechanism(a, excess))
+
+
 def cg_step_inside_configured_ball(r, hess_vec_func, precond, trSize, settings, result):
     a = _cg_analysis(r, hess_vec_func, precond, trSize, settings, result)
     if a["skip"] or not a.get("finite"):
         return True
-    return _bound("cg.in_ball", a["norm"] / a["Delta"], 1.0 + TOL["in_ball"], _detail_cg(a, {"norm": a["norm"]}))
+    return _bound_norm("cg.in_ball", a, a["norm"] / a["Delta"] - 1.0)
 
 
 def cg_model_not_above_cauchy_nor_zero(r, hess_vec_func, precond, trSize, settings, result):
@@ -386,8 +470,19 @@ def cg_model_not_above_cauchy_nor_zero(r, hess_vec_func, precond, trSize, settin
     if a["skip"] or not a.get("finite"):
         return True
     m, mc = a["m"], a["mc"]
-    floor = LD(8 * EPS) * a["mabs"]
-    ok1 = _bound("cg.model_le_cauchy", float(m - mc), float(LD(TOL["cauchy_rel"]) * abs(mc) + floor),
+    # rounding floor: the routine cannot evaluate the model (nor the sign of a curvature) more accurately than
+    # eps * (sum of the absolute values of the terms), at z and at the Cauchy point
+    floor = LD(4 * (a["n"] + 2) * EPS) * (a["mabs"] + a["mcmag"])
+    if a["dir_err"] is not None:
+        _bound("cg.cauchy_direction", a["dir_err"], 1.0, _detail_cg(a))
+    if a["stepType"] == "interior" and int(a["iters"]) == 0:
+        # the gradient already meets the stated tolerance ("converged in the interior" before any iteration): the zero
+        # step is the documented answer, there is no Cauchy decrease to demand (judged by cg.interior_residual instead)
+        LOG.count("cg.zero_step_gradient_below_tolerance")
+        return _bound("cg.model_le_zero", float(m), float(floor), _detail_cg(a, {"model": float(m)}))
+    # + accuracy of the oracle's own preconditioned norm (P^-1 by numpy.linalg.inv: relative error ~ eps cond(P))
+    orc = LD(8 * EPS * a["pcond"]) * abs(mc) if a["pre"] else LD(0)
+    ok1 = _bound("cg.model_le_cauchy", float(m - mc), float(LD(TOL["cauchy_rel"]) * abs(mc) + floor + orc),
                  _detail_cg(a, {"model": float(m), "model_cauchy": float(mc)}))
     ok2 = _bound("cg.model_le_zero", float(m), float(floor), _detail_cg(a, {"model": float(m)}))
     if mc < 0:
@@ -402,7 +497,7 @@ def cg_boundary_types_have_norm_equal_radius(r, hess_vec_func, precond, trSize, 
     if a["skip"] or not a.get("finite") or a["stepType"] not in ("boundary", "neg curve"):
         return True
     LOG.count("cg.boundary_norm_checked")
-    return _bound("cg.boundary_norm", abs(a["norm"] / a["Delta"] - 1.0), TOL["boundary"], _detail_cg(a, {"norm": a["norm"]}))
+    return _bound_norm("cg.boundary_norm", a, abs(a["norm"] / a["Delta"] - 1.0))
 
 
 def cg_interior_meets_stated_tolerance(r, hess_vec_func, precond, trSize, settings, result):
@@ -419,7 +514,8 @@ def cg_interior_meets_stated_tolerance(r, hess_vec_func, precond, trSize, settin
     # the solver tests its *recurrence* residual; the true residual differs by accumulated rounding, bounded by
     # c eps iters (||H|| ||z|| + ||g||)  (Greenbaum 1997); c = 16
     floor = 16 * EPS * (iters + 1) * (a["Hnorm"] * a["znorm2"] + a["gnorm"])
-    LOG.ratio("cg.interior_residual_vs_stated_only", a["resnorm"], TOL["interior_factor"] * tol)
+    if a["resnorm"] > TOL["interior_factor"] * tol:
+        LOG.count("cg.interior_residual_above_stated_tolerance_but_within_rounding_floor")
     return _bound("cg.interior_residual", a["resnorm"], TOL["interior_factor"] * tol + floor,
                   _detail_cg(a, {"residual": a["resnorm"], "tol": tol, "rounding_floor": floor}))
 
@@ -429,10 +525,7 @@ def cg_interior_meets_stated_tolerance(r, hess_vec_func, precond, trSize, settin
 def subspace_cg_postconditions(r, Pr, HPr, hess_vec_func, precond, trSize, settings, result):
     LOG.count("contract_evals:subspace_cg")
     res4 = (result[0], None, result[1], result[2])
-    a = _memo(result, lambda: None) if False else None
-    _STATE["memo_key"] = None
-    a = _cg_analysis(r, hess_vec_func, precond, trSize, settings, res4, two_norm_only=True)
-    _STATE["memo_key"] = None
+    a = _cg_analysis(r, hess_vec_func, precond, trSize, settings, res4, two_norm_only=True, direction=-_vec(Pr))
     if a["skip"]:
         LOG.count("subspace_cg.skipped:" + a["skip"])
         return True
@@ -441,8 +534,8 @@ def subspace_cg_postconditions(r, Pr, HPr, hess_vec_func, precond, trSize, setti
     ok = _expect("subspace_cg.wellformed", a["stepType"] in _VALID_TYPES and a["finite"], _detail_cg(a))
     if not a["finite"]:
         return ok
-    ok &= _bound("subspace_cg.in_ball", a["norm"] / a["Delta"], 1.0 + TOL["in_ball"], _detail_cg(a, {"norm": a["norm"]}))
-    floor = LD(8 * EPS) * a["mabs"]
+    ok &= _bound("subspace_cg.in_ball", a["norm"] / a["Delta"] - 1.0, TOL["in_ball"] + a.get("norm_rounding", 0.0), _detail_cg(a, {"norm": a["norm"]}))
+    floor = LD(4 * (a["n"] + 2) * EPS) * (a["mabs"] + a["mcmag"])
     ok &= _bound("subspace_cg.model_le_cauchy", float(a["m"] - a["mc"]), float(LD(TOL["cauchy_rel"]) * abs(a["mc"]) + floor),
                  _detail_cg(a, {"model": float(a["m"]), "model_cauchy": float(a["mc"])}))
     if a["stepType"] in ("boundary", "neg curve"):
@@ -480,6 +573,7 @@ def _dogleg_analysis(cp, newtonP, trSize, mat_mul, result):
         out.update(M=M, d=d, Delta=Delta, finite=bool(onp.all(onp.isfinite(d))) and d.size == n)
         if out["finite"]:
             out["norm"] = float(metric_norm(M, d))
+            out["norm_rounding"] = _quadform_rounding(M, d)
             out["cc"] = float(metric_norm(M, c))
             out["nn"] = float(metric_norm(M, nw))
             dist, leg, par = path_distance(c, nw, d)
@@ -503,10 +597,8 @@ def dogleg_point_inside_ball(cp, newtonP, trSize, mat_mul, result):
         LOG.count("dogleg.skipped:" + a["skip"])
         return True
     LOG.count("dogleg.judged")
-    if not _expect("dogleg.finite", a["finite"], _detail_dl(a)):
-        return _STATE["mode"] != "raise"
     if not a["finite"]:
-        return True
+        return _expect("dogleg.finite", False, _detail_dl(a))
     # which branch the inputs select (by the oracle's own norms; evidence only)
     D = a["Delta"]
     if a["cc"] >= D:
@@ -517,7 +609,7 @@ def dogleg_point_inside_ball(cp, newtonP, trSize, mat_mul, result):
         LOG.count("dogleg.branch:second_leg")
     else:
         LOG.count("dogleg.branch:newton")
-    return _bound("dogleg.in_ball", a["norm"] / D, 1.0 + TOL["in_ball"], _detail_dl(a, {"norm": a["norm"]}))
+    return _bound("dogleg.in_ball", a["norm"] / D - 1.0, TOL["in_ball"] + a["norm_rounding"], _detail_dl(a, {"norm": a["norm"]}))
 
 
 def dogleg_point_on_path(cp, newtonP, trSize, mat_mul, result):
@@ -584,9 +676,13 @@ def exact_step_inside_ball(A, b, Delta, result):
     LOG.count("exact.judged")
     LOG.count("exact.case:" + a["ref"]["case"])
     if not a["finite"]:
-        return _expect("exact.finite", False, _detail_ex(a))
-    LOG.checks += 1
-    return _bound("exact.in_ball", a["norm"] / a["Delta"], 1.0 + TOL["exact_ball"], _detail_ex(a, {"norm": a["norm"]}))
+        LOG.checks += 1
+        # structural classifier of the open finding "all-zero matrix": keyed on the input alone
+        mech = KEY_ZERO_MATRIX if not onp.any(a["A"]) else None
+        if mech:
+            LOG.count("exact.nonfinite_zero_matrix")
+        return _fail("exact.finite", _detail_ex(a), mech)
+    return _bound("exact.in_ball", a["norm"] / a["Delta"] - 1.0, TOL["exact_ball"], _detail_ex(a, {"norm": a["norm"]}))
 
 
 def exact_step_is_global_minimizer(A, b, Delta, result):
@@ -595,8 +691,68 @@ def exact_step_is_global_minimizer(A, b, Delta, result):
         return True
     mstar = a["ref"]["m"]
     D = a["Delta"]
-    allowed = LD(TOL["exact_rel"]) * abs(mstar) + LD(64 * EPS) * (LD(a["Anorm"]) * D * D + LD(a["bnorm"]) * D)
+    # 1e-7 |m*|  +  rounding of the eigen-decomposition  +  the routine's own hard-case tolerance eps = 1e-12 mean|sigma|
+    # (a multiplier within eps of the pole is treated as the hard case: sub-optimality <= eps Delta^2 / 2)
+    allowed = (LD(TOL["exact_rel"]) * abs(mstar) + LD(64 * EPS) * (LD(a["Anorm"]) * D * D + LD(a["bnorm"]) * D)
+               + LD(1e-12) * LD(float(onp.mean(onp.abs(a["ref"]["sig"])))) * D * D)
     return _bound("exact.global_min", float(a["m"] - mstar), float(allowed), _detail_ex(a, {"model": float(a["m"])}))
+
+
+# --------------------------------------------------------------------------- loop observer for the un-capped exact solver
+
+_LOOP = {"active": False, "n": 0, "seen": None, "orig_pnorm": None}
+
+
+def _pnorm_squared_observer(bvv, sig):
+    """Path observer on treigen.pnorm_squared (looked up as a module global on every secular iteration).
+
+    The secular loop is deterministic and its whole state is the shifted spectrum sig + lam; the Newton increment is at
+    least 1e-9 (the loop's own exit tolerance) relative to the smallest shifted eigenvalue, so the shifted spectrum can
+    only repeat if lam itself stopped changing or cycles: a repeated argument proves that the loop never terminates.
+    A plain iteration cap backs this up.  Raises ExactSolverNoReturn instead of letting the process spin."""
+    if _LOOP["active"]:
+        _LOOP["n"] += 1
+        key = onp.asarray(sig, dtype=float).tobytes()
+        if key in _LOOP["seen"]:
+            n = _LOOP["n"]
+            _LOOP["active"] = False
+            LOG.count("exact.loop_state_repeated")
+            raise ExactSolverNoReturn("secular iteration state repeated at evaluation %d (deterministic loop => never returns)" % n)
+        _LOOP["seen"].add(key)
+        cap = SECULAR_ITERATION_CAP if _LOOP.get("cap_events", 0) < 10 else SECULAR_ITERATION_CAP // 4
+        if _LOOP["n"] > cap:
+            _LOOP["active"] = False
+            _LOOP["cap_events"] = _LOOP.get("cap_events", 0) + 1
+            LOG.count("exact.loop_cap_exceeded")
+            raise ExactSolverNoReturn("more than %d secular iterations (a converging call needs < 20)" % cap)
+    return _LOOP["orig_pnorm"](bvv, sig)
+
+
+def _guard_exact(func):
+    import functools
+
+    @functools.wraps(func)
+    def solve(A, b, Delta):
+        LOG.count("exact.calls_entered")
+        _LOOP.update(active=_LOOP["orig_pnorm"] is not None and not _LOOP.get("disabled", False), n=0, seen=set())
+        try:
+            return func(A, b, Delta)
+        finally:
+            LOG.count("exact.secular_evaluations", _LOOP["n"])
+            LOG.ratio("exact.secular_evaluations_per_call_vs_cap", _LOOP["n"], SECULAR_ITERATION_CAP)
+            LOG.checks -= 1
+            _LOOP["active"] = False
+    solve.__c06_unguarded__ = func
+    return solve
+
+
+def classify_no_return(A, b, Delta):
+    """Structural classifier of the open finding D18: the optimal multiplier lies so close to the pole -sigma_1 that
+    float64 cannot resolve sigma_1 + lambda to the 1e-9 accuracy the loop demands (ulp(lambda)/(sigma_1+lambda) >= 1e-10).
+    Computed by the oracle from the input alone.  Returns (mechanism key or None, oracle record)."""
+    ref = trs_global_min(A, b, Delta)
+    near_pole = (ref["case"] == "boundary" and ref["lam"] > 0 and ref["sig"][0] < 0 and ref["pole_gap"] <= 2.5e-6 * ref["lam"])
+    return (KEY_NEAR_POLE if near_pole else None), ref
 
 
 # --------------------------------------------------------------------------- installation
@@ -604,7 +760,7 @@ def exact_step_is_global_minimizer(A, b, Delta, result):
 def _contracted(func, conditions):
     import icontract
     wrapped = func
-    for cond in reversed(conditions):
+    for cond in conditions:      # icontract evaluates stacked post-conditions innermost first: conditions[0] runs first
         wrapped = icontract.ensure(cond, error=C06ContractViolation, enabled=True)(wrapped)
     wrapped.__c06_original__ = func
     return wrapped
@@ -629,7 +785,13 @@ def install_contracts(mode="record", subspace=True):
         inst["dogleg"] = (EquationSolver, "dogleg_step", EquationSolver.dogleg_step)
         EquationSolver.dogleg_step = _contracted(EquationSolver.dogleg_step, DOGLEG_CONDITIONS)
         inst["exact"] = (treigen, "solve", treigen.solve)
-        treigen.solve = _contracted(treigen.solve, EXACT_CONDITIONS)
+        if hasattr(treigen, "pnorm_squared"):
+            inst["exact_pnorm"] = (treigen, "pnorm_squared", treigen.pnorm_squared)
+            _LOOP["orig_pnorm"] = treigen.pnorm_squared
+            treigen.pnorm_squared = _pnorm_squared_observer
+        else:
+            LOG.count("exact.loop_observer_unavailable")
+        treigen.solve = _contracted(_guard_exact(treigen.solve), EXACT_CONDITIONS)
     if subspace and "subspace_cg" not in inst:
         try:
             from optimism import EquationSolverSubspace as ESS
@@ -640,10 +802,16 @@ def install_contracts(mode="record", subspace=True):
     return {k: v[2] for k, v in inst.items()}
 
 
+def set_loop_observer(enabled):
+    """Disable / enable the secular-loop observer (the C06 harness disables it to confirm a hang by wall clock)."""
+    _LOOP["disabled"] = not enabled
+
+
 def uninstall_contracts():
     for k, (mod, name, orig) in list(_STATE["installed"].items()):
         setattr(mod, name, orig)
     _STATE["installed"].clear()
+    _LOOP["orig_pnorm"] = None
 
 
 def transfer(res, prefix=""):
